@@ -16,15 +16,6 @@ open Btc Btc.EC Btc.C01 Btc.Taproot Gen.Taproot
 section
 variable {p : ℕ} [Fact p.Prime] {C : Curve}
 
-/-- restricted and unrestricted `lift_x` agree -/
-def LiftAgree (K : CurveOk p C) : Prop :=
-  ∀ x : ℤ, ((opsSub K).liftX x).map Subtype.val = (EC.ops C).liftX x
-
-theorem liftAgree_of_cofactor_one (K : CurveOk p C) (h34 : p % 4 = 3)
-    (hcof : ∀ g : Pt p C.toCurveGroup, C.n • g = 0)
-    (hΔ : (curveOf p C.toCurveGroup).toAffine.Δ ≠ 0) : LiftAgree K :=
-  liftXSub_val_of_cofactor_one K h34 hcof hΔ
-
 /-- `point_from_octets` over the raw pairs is `point_from_octets` over the carrier, refusals included -/
 theorem pointFromOctets_map_val (K : CurveOk p C) (hL : LiftAgree K) (sec : Bytes) :
     (pointFromOctets (opsSub K) sec).map Subtype.val = pointFromOctets (EC.ops C) sec := by
@@ -93,7 +84,7 @@ theorem tweakedPubkey_raw_eq (K : CurveOk p C) (hL : LiftAgree K) (H : TagHash) 
       rw [outKey_tweakPoint_opsSub]
 
 /-- T1 over the raw arithmetic, cofactor one: the key parses over `Btc.EC.ops C` itself -/
-theorem completeness_raw_cof (K : CurveOk p C) (h34 : p % 4 = 3)
+theorem completeness_raw_cofactor_one (K : CurveOk p C) (h34 : p % 4 = 3)
     (hcof : ∀ g : Pt p C.toCurveGroup, C.n • g = 0) (hΔ : (curveOf p C.toCurveGroup).toAffine.Δ ≠ 0)
     (hp : C.p ≤ 2 ^ 256) {H : TagHash} (h32 : Len32 H)
     (sec : Bytes) (tree : Tree) (Q : Point) (t : ℤ) (hdepth : tree.depth ≤ 128)
@@ -108,7 +99,7 @@ theorem completeness_raw_cof (K : CurveOk p C) (h34 : p % 4 = 3)
   exact (completeness_raw_ec K h34 hp h32 sec tree P t hdepth hPs ht hQ).2
 
 /-- T2 over the raw arithmetic, cofactor one -/
-theorem key_agreement_raw_cof (K : CurveOk p C) (h34 : p % 4 = 3)
+theorem key_agreement_raw_cofactor_one (K : CurveOk p C) (h34 : p % 4 = 3)
     (hcof : ∀ g : Pt p C.toCurveGroup, C.n • g = 0) (hΔ : (curveOf p C.toCurveGroup).toAffine.Δ ≠ 0)
     {H : TagHash} (d : ℤ) (h0 : 0 < d) (h1 : d < C.n) (sec h : Bytes) (Q : Point)
     (hP : pointFromOctets (EC.ops C) sec = .ok Q)
@@ -153,10 +144,7 @@ theorem secp256k1_disc : haveI : Fact (Nat.Prime secp256k1_p) := ⟨secp256k1_p_
   push_cast
   ring
 
-/-- the one assumption about secp256k1 that is not proved: it has cofactor one (`#E(F_p) = n`) -/
-def Secp256k1CofactorOne : Prop := ∀ g : SecpGroup, secp256k1.n • g = 0
-
-theorem completeness_secp256k1_raw (hcof : Secp256k1CofactorOne) {H : TagHash} (h32 : Len32 H)
+theorem completeness_secp256k1_cofactor_one (hcof : SecpCofactorOne) {H : TagHash} (h32 : Len32 H)
     (sec : Bytes) (tree : Tree) (Q : Point) (t : ℤ) (hdepth : tree.depth ≤ 128)
     (hP : pointFromOctets (EC.ops secp256k1) sec = .ok Q)
     (ht : tapTweak (EC.ops secp256k1) H (xOnly sec) (root H tree) = .ok t)
@@ -167,10 +155,10 @@ theorem completeness_secp256k1_raw (hcof : Secp256k1CofactorOne) {H : TagHash} (
       ∃ s c, inputScriptSig (EC.ops secp256k1) H (some sec) tree i = .ok (s, c) ∧
         checkOutputPubkey (EC.ops secp256k1) H
           (outKey (EC.ops secp256k1) (tweakPoint (EC.ops secp256k1) Q t)).1 s c = .ok true :=
-  @completeness_raw_cof secp256k1_p ⟨secp256k1_p_prime⟩ secp256k1 secpOk secp256k1_h34 hcof secp256k1_disc
+  @completeness_raw_cofactor_one secp256k1_p ⟨secp256k1_p_prime⟩ secp256k1 secpOk secp256k1_h34 hcof secp256k1_disc
     secp_sizes.1 H h32 sec tree Q t hdepth hP ht hQ
 
-theorem key_agreement_secp256k1_raw (hcof : Secp256k1CofactorOne) {H : TagHash}
+theorem key_agreement_secp256k1_cofactor_one (hcof : SecpCofactorOne) {H : TagHash}
     (d : ℤ) (h0 : 0 < d) (h1 : d < secp256k1.n) (sec h : Bytes) (Q : Point)
     (hP : pointFromOctets (EC.ops secp256k1) sec = .ok Q)
     (hsame : (EC.ops secp256k1).eq Q ((EC.ops secp256k1).mul d secp256k1.G) = true ∨
@@ -185,7 +173,7 @@ theorem key_agreement_secp256k1_raw (hcof : Secp256k1CofactorOne) {H : TagHash}
         ((EC.ops secp256k1).isZero (tweakPoint (EC.ops secp256k1) Q t) = false →
           outKey (EC.ops secp256k1) ((EC.ops secp256k1).mul d2 secp256k1.G) =
             outKey (EC.ops secp256k1) (tweakPoint (EC.ops secp256k1) Q t))) :=
-  @key_agreement_raw_cof secp256k1_p ⟨secp256k1_p_prime⟩ secp256k1 secpOk secp256k1_h34 hcof secp256k1_disc
+  @key_agreement_raw_cofactor_one secp256k1_p ⟨secp256k1_p_prime⟩ secp256k1 secpOk secp256k1_h34 hcof secp256k1_disc
     H d h0 h1 sec h Q hP hsame hx
 
 end Btc.E2E
